@@ -21,11 +21,11 @@ var (
 	f32Limit = math.Ldexp(1, 128) - math.Ldexp(1, 103) // values from here on round to +Inf as float32
 )
 
-func srcI(v int64) src    { return src{kind: 'i', i: v} }
-func srcU(v uint64) src   { return src{kind: 'u', u: v} }
-func srcF(v float64) src  { return src{kind: 'f', f: v} }
-func srcS(v string) src   { return src{kind: 's', s: v} }
-func srcB(v bool) src     { return src{kind: 'b', b: v} }
+func srcI(v int64) src        { return src{kind: 'i', i: v} }
+func srcU(v uint64) src       { return src{kind: 'u', u: v} }
+func srcF(v float64) src      { return src{kind: 'f', f: v} }
+func srcS(v string) src       { return src{kind: 's', s: v} }
+func srcB(v bool) src         { return src{kind: 'b', b: v} }
 func fitsI64(v *big.Int) bool { return v.Cmp(minI64b) >= 0 && v.Cmp(maxI64b) <= 0 }
 func fitsU64(v *big.Int) bool { return v.Sign() >= 0 && v.Cmp(maxU64b) <= 0 }
 
@@ -97,7 +97,7 @@ func neighbours(f float64, n int) []float64 {
 	return out
 }
 
-func init() {
+func initTable() {
 	seen := map[string]bool{}
 	push := func(s src) {
 		k := s.String()
